@@ -211,6 +211,7 @@ func checkC04(p *Program, tier string) *Result {
 	rulePanicSources(p, r, fns, "R-PANIC")
 	rulePadPrecondition(p, r)
 	validators := ruleValidatePass(p, r)
+	ruleValidateFields(p, r, validators)
 	// a packet body is capped: the header validator bounds the length field by MaxBodyLength
 	if hv := validators["Header"]; hv != nil {
 		b := validateBounds(p, hv)
